@@ -23,7 +23,7 @@ def main():
             open(p, "w").write(orig.replace(m["old"], m["new"], 1))
             out = []
             for prop in m["props"]:
-                r = subprocess.run([os.path.join(ROOT, "check"), prop], env=dict(os.environ, VERIF_REPO=tmp, VERIF_EVIDENCE_DIR=os.path.join(tmp, "_ev")),
+                r = subprocess.run([os.path.join(ROOT, "check"), prop], env=dict(os.environ, VERIF_REPO=tmp, VERIF_EVIDENCE_DIR=os.path.join(tmp, "_ev"), VERIF_REPLAY_DIR=os.path.join(tmp, "_replay"), VERIF_BUILD_DIR=os.path.join(tmp, "_build")),
                                    capture_output=True, text=True)
                 viol = [l for l in r.stdout.splitlines() if l.startswith("VIOLATION")]
                 out.append((prop, r.returncode, [v.split("replay=")[1].split("/")[-1] for v in viol]))
